@@ -11,7 +11,7 @@ PROP = {
                'access and a linearizability check of the results.',
  'level_note': 'location alphabet: all locations of depth <= 2 over 2 names (1 object slot quick, 2 thorough) plus a depth-3 chain with side branches (2 object slots); schedules are sequentially consistent interleavings (exact for seq_cst atomics + mutex); out-of-line libstdc++ code is not instrumented for the race detector',
  'binaries': [{'name': 'C19seq', 'sources': ['harness/C19_seq.cpp'], 'libs': ['core', 'log'], 'flavour': 'asan'},
-              {'name': 'C19conc', 'sources': ['harness/C19_conc.cpp', 'rt/sched/sched.cpp'], 'libs': ['core'], 'hook_libs': ['log'], 'flavour': 'plain', 'link_flags': ['-rdynamic']}],
+              {'name': 'C19conc', 'sources': ['harness/C19_conc.cpp', 'rt/sched/sched.cpp'], 'libs': ['core'], 'hook_libs': ['log'], 'hook_sources': ['rt/sched/visible_std.cpp'], 'flavour': 'plain', 'link_flags': ['-rdynamic']}],
  'deadline': {'quick': 300, 'thorough': 1500},
  'rule': 'sequential: BFS over histories, a transition is non-trivial when it changes the canonical state (existing nodes, their reference levels, object slots); concurrent: one case per complete schedule, non-trivial when at least one context switch happened at a point where the running thread was still enabled',
  'assumptions': ['root level of the context is fixed to warning; levels set are debug/error/none',
